@@ -130,6 +130,9 @@ def run(c):
             c.drift("%s with the proposed range checks (Checked = TRUE) violates %s: the repaired design is not sound" % (m["module"], m["violated"]))
     pv = [m["module"] for m in pinned if m["violated"]]
     c.note("transcription drift vs pinned tree (Checked=FALSE): %d lines, vs repaired tree (Checked=TRUE): %d lines" % (drift["drift0"], drift["drift1"]))
+    for m in pinned:
+        if not m["violated"]:
+            c.vacuous.append("%s with Checked = FALSE (the snapshot's readers) no longer violates FaultInv: the fault model lost its teeth" % m["module"])
     if pv:
         c.note("model-level finding: the transcription of the pinned readers (Checked = FALSE) violates FaultInv in %s" % ", ".join(pv))
     if drift["drift0"] and drift["drift1"]:
